@@ -497,6 +497,28 @@ def rr_rule(rep, utp):
     return n
 
 
+
+def aop_destination_rule(rep, u, fname="tpt_msg_async_op_alloc"):
+    """an asynchronous-operation record always has a thread that will run its completion: with no destination given and no
+    current pool thread the allocation fails (the completion send would be refused with EINVAL, the callback never runs
+    and the record leaks).  Evaluated with tpt_get_current() = NULL / a thread."""
+    from rules import r_stride
+    fn = tp.need(u, fname)
+    rep.functions.add(fname)
+    pn = [p["n"] for p in fn.params]
+    for cur, want_null in ((0, True), (0x2000, False)):
+        pe = r_stride.PE(u, call_default={"tpt_get_current": cur, "calloc": 0x900000})
+        ev, ret = pe.trace(fn, {pn[0]: 0, pn[1]: 0x5000})
+        inst = "no-destination[current=%s]" % ("NULL" if cur == 0 else "thread")
+        desc = "%s(NULL, cb) called %s %s" % (fname, "outside the pool" if cur == 0 else "on a pool thread", "returns NULL" if want_null else "returns a record for that thread")
+        if isinstance(ret, str):
+            rep.undecided("R-MPT", fn, inst, desc, ret)
+        elif (ret == 0) == want_null:
+            rep.proved("R-MPT", fn, inst, desc, "result %s" % ("NULL" if ret == 0 else "record"))
+        else:
+            rep.violated("R-MPT", fn, inst, desc, "a record with destination NULL is handed out: tpt_msg_async_op_cb_free() then sends to NULL (EINVAL, ignored), op_cb never runs, the record leaks")
+    return 2
+
 def run(rep, tier):
     us = tp.units((tp.MSG_C, tp.TP_C))
     rep.use_units(us)
@@ -518,6 +540,7 @@ def run(rep, tier):
     drain_rule(rep, us)
     inflight_rule(rep, us)
     rep.floor("round-robin subscripts", rr_rule(rep, us[tp.TP_C]), 1)
+    aop_destination_rule(rep, u)
     return driver.finish(
         rep, "other",
         "Static analysis of threadpool_msg_sys.c. Decided: all %d acyclic paths of tpt_msg_send fall into the seven "
